@@ -1,6 +1,7 @@
 import MlModel.Lemmas.RemoteBasic
 import MlModel.Lemmas.RemoteChain
 import MlModel.Lemmas.RemoteIter
+import MlModel.Lemmas.RemoteConc
 import MlModel.Properties.C17
 /-!
 # C14 — remote evaluation is observationally the same as local evaluation
@@ -488,5 +489,129 @@ theorem C14_shutdown_sticky (p : Prog) (env : Env) (srv : Srv) :
     split
     · exact hs
     · rw [run_shutdown]; exact hs
+
+/-! ## C14_concurrent — requests on distinct objects commute -/
+
+/-- a fault-free `get_result` is a fixed function of the shutdown flag and of local evaluation -/
+theorem getResult_ok_form (p : Prog) (srv : Srv) (ht : p.traceError = none) :
+    getResult p {} srv =
+      (decode {} (match (run p srv).1 with
+        | .ok v => Reply.payload v.dumps true
+        | .error x => Reply.payload (.exc (if srv.shutdown then shutdownExc else x).dumps) true),
+       (run p srv).2) := by
+  simp only [getResult_traced ht, Bool.not_true, Bool.false_eq_true, if_false, handle_getRequest]
+  rfl
+
+theorem served_traceError {srv : Srv} {p : Prog} {t : Nat} (h : Served srv p t) : p.traceError = none := by
+  cases p <;> first | rfl | exact absurd h.2 id
+
+/-- **Concurrent clients.**  Two requests served by distinct server-side objects (two remote iterators,
+two remote queues, an iterator and a queue; `Served` names the cell each one works on) commute: each
+client receives the reply it would receive alone, whichever request the server handles first, and both
+orders leave the server in the same state.  Holds with or without a pending shutdown. -/
+theorem C14_concurrent (p q : Prog) (srv : Srv) (tp tq : Nat) (hp : Served srv p tp) (hq : Served srv q tq)
+    (hne : tp ≠ tq) :
+    (getResult q {} (getResult p {} srv).2).1 = (getResult q {} srv).1 ∧
+    (getResult p {} (getResult q {} srv).2).1 = (getResult p {} srv).1 ∧
+    (getResult q {} (getResult p {} srv).2).2 = (getResult p {} (getResult q {} srv).2).2 := by
+  obtain ⟨h1, h2, h3⟩ := run_commute p q srv tp tq hp hq hne
+  simp only [getResult_ok_form _ _ (served_traceError hp), getResult_ok_form _ _ (served_traceError hq),
+    h1, h2, h3, run_shutdown, and_self]
+
+/-- An expression evaluation and a request on a stateful object commute as well (they act on different
+components of the process state). -/
+theorem C14_concurrent_expr (e : Expr) (q : Prog) (srv : Srv) (tq : Nat) (he : e.badFlags = false)
+    (hq : Served srv q tq) :
+    (getResult q {} (getResult (.expr e) {} srv).2).1 = (getResult q {} srv).1 ∧
+    (getResult (.expr e) {} (getResult q {} srv).2).1 = (getResult (.expr e) {} srv).1 ∧
+    (getResult q {} (getResult (.expr e) {} srv).2).2 = (getResult (.expr e) {} (getResult q {} srv).2).2 := by
+  obtain ⟨h1, h2, h3⟩ := run_expr_commute e q srv tq hq
+  have hte : (Prog.expr e).traceError = none := by simp [Prog.traceError, he]
+  simp only [getResult_ok_form _ _ hte, getResult_ok_form _ _ (served_traceError hq),
+    h1, h2, h3, run_shutdown, and_self]
+
+/-- Store frame for plain objects (from C17): whatever another client has the server evaluate, an
+existing handle keeps denoting the same object — or is gone (evicted); its id is never reused for
+another object. -/
+theorem C14_concurrent_frame (e : Expr) (env : Env) (srv : Srv) (hg : Good srv.lz) (id : Nat)
+    (hid : id < srv.lz.nextId) (rv : RVal) (h : Lru.find? srv.lz.obj.data id = some rv) :
+    Lru.find? (getResult (.expr e) env srv).2.lz.obj.data id = some rv ∨
+    Lru.find? (getResult (.expr e) env srv).2.lz.obj.data id = none ∨
+    (getResult (.expr e) env srv).2 = srv := by
+  have hst := C17.C17_handle_stable e srv.lz hg id hid rv h
+  unfold getResult
+  split
+  · exact Or.inr (Or.inr rfl)
+  · split
+    · exact Or.inr (Or.inr rfl)
+    · split
+      · simp only [handle_getRequest, run, runExpr]
+        rcases hst with h1 | h1
+        · exact Or.inl h1
+        · exact Or.inr (Or.inl h1)
+      · exact Or.inr (Or.inr rfl)
+      · simp only [handle_getRequest, run, runExpr]
+        rcases hst with h1 | h1
+        · exact Or.inl h1
+        · exact Or.inr (Or.inl h1)
+      · exact Or.inr (Or.inr rfl)
+      · exact Or.inr (Or.inr rfl)
+
+/-! ## Non-vacuity: concrete instances of the hypotheses and of the behaviours -/
+
+def s0 : Srv := Srv.init 4 4
+/-- `mkrec(x=1, f=add)` with `lazy_result_=True` -/
+def exRec : Expr :=
+  .call (.traced (.fn "mkrec") false) [] [("x", .const (.int 1)), ("f", .const (.fn "add"))] false true
+/-- the server after the client obtained a handle (id 0) to the record -/
+def s1 : Srv := (getResult (.expr exRec) {} s0).2
+/-- …and after it created a generator `1, 2, return 9` (id 1) and took `iter()` of it (id 2) -/
+def s2 : Srv := (getResult (.iterOf 1) {} (getResult (.mkGen [.int 1, .int 2] (.stop [.int 9])) {} s1).2).2
+def boom : Exc := { kind := .py .value, msg := "boom" }
+
+-- C14_eval: hypotheses hold, value and exception cross unchanged
+example : s0.shutdown = false ∧ (run (.expr C17.ex1) s0).1 = .ok (.plain (.int 7)) := by decide
+example : (getResult (.expr C17.ex1) {} s0).1 = .ok (.val (.plain (.int 7))) := by decide
+example : (getResult (.raise boom) {} s0).1 = .error boom ∧ boom.code ≠ 4 := by decide
+example : (getResult (.expr (.call (.traced (.fn "failneg") false) [.const (.int (-1))] [] false false)) {} s0).1
+    = .error (Exc.ofErr (.py .value)) := by decide
+-- the witnesses
+example : (run (.excValue boom) s0).1 = .ok (.exc boom) ∧ (getResult (.excValue boom) {} s0).1 = .error boom := by decide
+example : (getResult (.raise { boom with code := 4 }) {} s0).1 = .error tryLongerExc := by decide
+-- C14_handle: only the id comes back; chains on the handle; the hypotheses of C14_handle_chain hold
+example : (getResult (.expr exRec) {} s0).1 = .ok (.remote 0) := by decide
+example : Lru.find? s1.lz.obj.data 0 = some (.record [("x", .int 1), ("f", .fn "add")], 1) := by decide
+example : (handleResult 0 [.attr "x"] {} s1).1 = .ok (.val (.plain (.int 1))) := by decide
+example : (handleResult 0 [.attr "f", .call [.int 3, .int 4] []] {} s1).1 = .ok (.val (.plain (.int 7))) := by decide
+example : (handleResult 0 [.item (.str "x")] {} s1).1 = .ok (.val (.plain (.int 1))) := by decide
+example : (handleResult 0 [.attr "q"] {} s1).1 = .error (Exc.ofErr (.py .attr)) := by decide
+example : (localChain (.record [("x", .int 1), ("f", .fn "add")]) [.attr "f", .call [.int 3, .int 4] []] {}).1
+    = .ok (.int 7) := by decide
+-- C14_iter: elements in order, the end once (with the return value), then bare StopIteration
+example : sGet s2.objs (resolve s2.objs 2) = some (.iter ⟨[.int 1, .int 2], .stop [.int 9]⟩) := by decide
+example : (remoteNexts 2 5 s2).1 =
+    [.ok (.val (.plain (.int 1))), .ok (.val (.plain (.int 2))), .error (stopExc [.int 9]),
+     .error (stopExc []), .error (stopExc [])] := by decide
+-- two handles (1 and 2) of one generator share it
+example : (getResult (.next 1) {} (getResult (.next 2) {} s2).2).1 = .ok (.val (.plain (.int 2))) := by decide
+-- C14_shutdown
+example : (getResult (.raise boom) {} (requestShutdown s0)).1 = .error shutdownExc := by decide
+example : (getResult (.expr C17.ex1) {} (requestShutdown s0)).1 = .ok (.val (.plain (.int 7))) := by decide
+example : (remoteNexts 2 3 (requestShutdown s2)).1 =
+    [.ok (.val (.plain (.int 1))), .ok (.val (.plain (.int 2))), .error shutdownExc] := by decide
+example : (initIterator (Prog.expr (.traced (.tup [.int 1]) false)).dumps (requestShutdown s0)).1
+    = .refused initShutdownExc := by decide
+-- fates
+example : (getResult (.expr C17.ex1) { fate := .deadline } s0).1 = .error tryLongerExc := by decide
+example : (getResult (.expr C17.ex1) { fate := .deadline, aliveAtError := false } s0).1 = .error deadlineStatus := by decide
+example : (getResult (.expr C17.ex1) { fate := .lost } s0).1 = .error disconnectedExc := by decide
+-- tracing error: raised on the client even when the server is shutting down
+example : (getResult (.expr (.call (.traced (.fn "pair") false) [] [] true true)) {} (requestShutdown s0)).1
+    = .error (Exc.ofErr (.py .value)) := by decide
+-- C14_concurrent: an iterator (cell 1) and a queue (cell 3) on one server
+def s3 : Srv := (getResult (.mkQueue [.int 5, .int 6] (.stop [])) {} s2).2
+example : Served s3 (.next 2) 1 := ⟨by decide, ⟨⟨[.int 1, .int 2], .stop [.int 9]⟩, by decide⟩⟩
+example : Served s3 (.qget 3) 3 := ⟨by decide, ⟨⟨[.int 5, .int 6], .stop []⟩, by decide⟩⟩
+example : (getResult (.qget 3) {} (getResult (.next 2) {} s3).2).1 = .ok (.val (.plain (.int 5))) := by decide
 
 end MlModel.C14
